@@ -613,6 +613,13 @@ func TestVerifC07Lab(t *testing.T) {
 			attack.ns = []vC07RRSpec{{owner: vC07N("victim.l2."), rrtype: dns.TypeSOA, class: dns.ClassINET, ttl: 300}}
 			tags = append(tags, "with-soa")
 		}
+		if c%3 == 1 && pick >= 2 {
+			// a referral for the echoed (victim) zone with glue for its name server: the two-site attack of C07-9
+			attack.answer = nil
+			attack.ns = []vC07RRSpec{{owner: vC07N("victim.l2."), rrtype: dns.TypeNS, class: dns.ClassINET, ttl: 300, target: vC07N("ns.victim.l2.")}}
+			attack.extra = []vC07RRSpec{{owner: vC07N("ns.victim.l2."), rrtype: dns.TypeA, class: dns.ClassINET, ttl: 300, ip: vC07Rogue}}
+			tags = append(tags, "with-referral+glue")
+		}
 		amsg := attack.msg()
 		amsg.Question = []dns.Question{{Name: echoed.String(), Qtype: echoType, Qclass: dns.ClassINET}}
 		l.evil.setHandle(func(q dns.Question) *dns.Msg {
@@ -643,7 +650,7 @@ func TestVerifC07Lab(t *testing.T) {
 				goFail = "reply to " + qs + " relays " + sp.String()
 			}
 		}
-		bad, vdesc := l.askVictims(p)
+		bad, vdesc := l.health(p)
 		p.close()
 		l.evil.setHandle(l.honestEvil)
 		if len(bad) > 0 {
